@@ -577,7 +577,7 @@ def run(ctx, res):
         # ---- exhaustive small scope (thorough / search): fixed screens with P plates, every (observed?, in batch?) assignment
         if ctx.tier == "thorough" or ctx.mode == "search":
             erng = ctx.subrng("c06-exh")
-            for P in range(1, 7):
+            for P in range(1, 7 if ctx.mode == "check" else 6):
                 # two experiments per plate; conditions chosen so that neighbours share a condition
                 tn, td, sn, pn = [], [], [], []
                 for p in range(P):
@@ -606,8 +606,47 @@ def run(ctx, res):
                     if len(lines) > 4000:
                         flush(ctx, res, lines, expect, meta)
         flush(ctx, res, lines, expect, meta)
+        dbal_total(ctx, res)
     finally:
         env.close()
+
+
+def dbal_total(ctx, res):
+    """the third shipped scorer, GaussianDBALScorer, on really trained thetas: one finite-or--inf score per plate handed to it
+    (its numerics are C05's subject; here only totality, which `C06_selection_correct` assumes of the scorer)"""
+    from harness import c04
+    from batchie.distance_calculation import calculate_pairwise_distance_matrix_on_predictions
+    from batchie.distance.mse import MSEDistance
+    from batchie.scoring.main import score_chunk
+    from batchie.scoring.gaussian_dbal import GaussianDBALScorer
+    c04.quiet()
+    rng = ctx.subrng("c06-dbal")
+    for t in range(ctx.scale(4, 40, 12)):
+        raw = c04.gen_base(rng, big=True)
+        scr = S.build(raw)
+        model, _ = c04.train_arrays("combo", scr)
+        th = c04.thetas_of(model, t, n=4)
+        dm = calculate_pairwise_distance_matrix_on_predictions(thetas=th, distance_metric=MSEDistance(), data=scr, chunk_index=0, n_chunks=1)
+        pids, mask, sids, tids, plates, observed = facts(scr)
+        unobs = [p for p in plates if not observed[p]]
+        for batch in ([], unobs[:1]):
+            cands = expected_candidates(scr, batch)
+            for n in (1, 2, len(cands) + 1):
+                got = []
+                for idx in range(n):
+                    h = score_chunk(scorer=GaussianDBALScorer(max_chunk=2, max_triples=20), thetas=th, screen=scr, distance_matrix=dm,
+                                    rng=np.random.default_rng(1), n_chunks=n, chunk_index=idx, batch_plate_ids=list(batch))
+                    if int(h.current_index) != len(h.plate_ids):
+                        res.fail("GaussianDBALScorer returned fewer scores than plates", {"kind": "dbal", "raw": raw, "batch": batch, "n": n, "idx": idx},
+                                 int(h.current_index), len(h.plate_ids), signature="C06:dbal-total")
+                    if any(np.isnan(float(x)) for x in h.scores):
+                        res.count("dbal.nan-score")
+                    got.extend(int(x) for x in h.plate_ids)
+                res.evaluations += 1
+                if sorted(got) != sorted(cands):
+                    res.fail("GaussianDBALScorer: scored plates != candidates, each once", {"kind": "dbal", "raw": raw, "batch": batch, "n": n},
+                             sorted(got), sorted(cands), signature="C06:dbal-total")
+        res.count("dbal.screens")
 
 
 def flush(ctx, res, lines, expect, meta):
@@ -622,6 +661,9 @@ def flush(ctx, res, lines, expect, meta):
 
 def replay(ctx, case, res):
     quiet_logging()
+    if case.get("kind") == "dbal":
+        dbal_total(ctx, res)
+        return
     env = Env()
     try:
         c = dict(case)
